@@ -474,6 +474,23 @@ impl Driver {
                         self.publish(s);
                     }
                 }
+                Op::PutIdx { k } => {
+                    let s = self.next_seq();
+                    self.opidx += 1;
+                    let v = small_value(self.value_tag, self.opidx);
+                    let key = self.cfg.keys[*k as usize].clone();
+                    let _ = self.t().insert(key.clone(), v.clone(), s);
+                    self.model.push(&key, s, Kind::Put, &v, Loc::Active);
+                    self.publish(s);
+                }
+                Op::DelIdx { k } => {
+                    let s = self.next_seq();
+                    self.opidx += 1;
+                    let key = self.cfg.keys[*k as usize].clone();
+                    let _ = self.t().remove(key.clone(), s);
+                    self.model.push(&key, s, Kind::Del, b"", Loc::Active);
+                    self.publish(s);
+                }
                 Op::Seq { ops } => {
                     for o in ops {
                         self.apply_inner(o, info)?;
